@@ -1,5 +1,5 @@
 (** C15 -- script arguments, functions, source, exit statuses. Statements only. *)
-From Cicada Require Import Base.Chars Base.Peg Gen.LocustGrammar Model.Script Model.ScriptAst Model.Args
+From Cicada Require Import Base.Chars Base.Peg Gen.LocustGrammar Model.Script Model.ScriptAst Model.Args Model.ShellScript
   Proofs.ArgsProofs Proofs.SetEProofs Proofs.ScriptProofs.
 From Coq Require Import ZArith String Ascii.
 
@@ -113,6 +113,54 @@ Theorem C15_sete_nested_refuted :
   /\ ~ sete_full.
 Proof. split; [vm_compute; reflexivity|]. unfold sete_full. vm_compute. discriminate. Qed.
 
+(** 3b. set -e with function calls and `source`: exit_on_error and the function table are shell
+    state threaded through run_script / run_lines / try_run_func (Model/ShellScript.v), the flag
+    being reset where the code resets it (end of run_script). INSTANCES computed on that model
+    (the unbounded statement over all flat scripts with calls is NOT proved; the model is tied to
+    the binary by layer L2b on every run, 120 / 600 generated scripts):
+    A  a successful call between `set -e` and the failing command: the script ends at `fail7`, status 7;
+    B  the failing command inside the called function: the body is left at once and so is the script;
+    C  (refutation) a `source` between them: run_script's reset clears the flag, `notreached` runs, status 0. *)
+Definition ex_ext (l : str) : Z := if str_eqb l (S2 "fail7") then 7%Z else 0%Z.
+Definition ex_files (p : str) : option str :=
+  if str_eqb p (S2 "a.sh") then Some (S2 "function ok_fn {
+  in_fn
+}
+set -e
+one
+ok_fn a
+two
+fail7
+notreached
+") else if str_eqb p (S2 "b.sh") then Some (S2 "function bad-fn() {
+  start
+  fail7
+  fn_notreached
+}
+set -e
+one
+bad-fn
+notreached
+") else if str_eqb p (S2 "c.sh") then Some (S2 "set -e
+one
+source lib.sh
+two
+fail7
+notreached
+") else if str_eqb p (S2 "lib.sh") then Some (S2 "in_lib
+") else None.
+Definition ex_run (p : string) : list str * Z :=
+  let '(w, st) := run_script ex_ext ex_files 8 30 (mk_shs false nil nil) (S2 p) in (s_log w, st).
+
+Theorem C15_sete_calls_instances :
+  ex_run "a.sh" = ([S2 "one"; S2 "in_fn"; S2 "two"; S2 "fail7"], 7%Z) /\
+  ex_run "b.sh" = ([S2 "one"; S2 "start"; S2 "fail7"], 7%Z).
+Proof. vm_compute. split; reflexivity. Qed.
+
+Theorem C15_sete_source_refuted :
+  ex_run "c.sh" = ([S2 "one"; S2 "in_lib"; S2 "two"; S2 "fail7"; S2 "notreached"], 0%Z).
+Proof. vm_compute. reflexivity. Qed.
+
 (** The property, in full, and its refutation on the faithful model. *)
 Definition C15_full : Prop :=
   (forall args token out, Subst args token out -> expand_args_for_single_token token args = Ok out)
@@ -156,3 +204,5 @@ Print Assumptions C15_func_status_list.
 Print Assumptions C15_sete_flat.
 Print Assumptions C15_sete_nested_refuted.
 Print Assumptions C15_refuted.
+Print Assumptions C15_sete_calls_instances.
+Print Assumptions C15_sete_source_refuted.
